@@ -139,6 +139,7 @@ structure St where
   wfOk : Bool := true
   curGap : Bool := false                 -- current message: a sighting for the code's location test, not for the text's
   gaps : List Bool := []                 -- reversed, one per step
+  target : String := ""                  -- the search listener's unicast filter host (`target` line; "" = multicast)
   mode : CbMode := .both                 -- which callbacks the listener under test was given (`mode` line)
 
 def St.bad (st : St) (s : String) : St :=
@@ -161,8 +162,12 @@ def stepLine (genCfg specCfg : Cfg) (st : St) (toks : List String) : St :=
      | none => st.bad s!"bad str {h}")
   | "msg" :: sock :: rest =>
     (match pairList st.tbl (if rest.isEmpty then "~" else ",".intercalate rest) with
-     | some pairs => beginEv st genCfg specCfg fun cfg => Parse.parseEv cfg (sock == "A") pairs
+     | some pairs => beginEv st genCfg specCfg fun cfg => Parse.parseEvT cfg st.target (sock == "A") pairs
      | none => st.bad "bad msg line")
+  | ["target", t] =>
+    (match optStr st.tbl t with
+     | some o => { st with target := o.getD "" }
+     | none => st.bad "bad target line")
   | ["mode", m] =>
     { st with mode := if m = "sync" then .sync else if m = "async" then .async else .both }
   | "lost" :: sock :: ts :: rest =>
@@ -171,7 +176,7 @@ def stepLine (genCfg specCfg : Cfg) (st : St) (toks : List String) : St :=
     (match pairList st.tbl (if rest.isEmpty then "~" else ",".intercalate rest) with
      | some pairs =>
        let st := beginEv st genCfg specCfg fun _ => .noise (ts.toInt?.getD 0)
-       { st with evJ := some (Parse.parseEv specCfg (sock == "A") pairs) }
+       { st with evJ := some (Parse.parseEvT specCfg st.target (sock == "A") pairs) }
      | none => st.bad "bad lost line")
   | ["drop", ts] => beginEv st genCfg specCfg fun _ => .noise (ts.toInt?.getD 0)
   | ["purge", ts] => beginEv st genCfg specCfg fun _ => .purge (ts.toInt?.getD 0)
